@@ -29,6 +29,7 @@ type Call struct {
 	Ret    int
 	Err    error
 	Skip   bool // set by Before: do not perform the real call, use Ret/Err/Sa as given
+	Post   error // set by Before: perform the real call, then report this error instead of its result
 }
 
 // Hooks is installed by the harness.
@@ -59,6 +60,9 @@ func do(c *Call, real func()) {
 	h.Before(c)
 	if !c.Skip {
 		real()
+		if c.Post != nil {
+			c.Ret, c.Err = -1, c.Post
+		}
 	}
 	h.After(c)
 }
